@@ -450,6 +450,83 @@ pub fn run(rep: &Report) {
     if let Err(f) = check_empty_toggles() {
         rep.fail("empty-toggles", &f.signature, f.case, f.expected, f.actual, f.size);
     }
+    // many context functions at once (inline capacities / overflow tables of a function store): n
+    // functions, some named like builtins, then as built / cloned / clear_functions / clear; calls of
+    // the first, 8th, 9th, 17th, last and of a shadowed builtin must resolve as the model says
+    let sizes: Vec<usize> = refmodel::gen::SCALE_SIZES.iter().copied().filter(|n| *n <= 130).collect();
+    common::enumerate(rep, "many-functions", sizes.len() as u64 * 4 * 2, 8, &|i, l| {
+        let n = sizes[(i % sizes.len() as u64) as usize];
+        let stage = (i / sizes.len() as u64) % 4;
+        let disabled = i / (sizes.len() as u64 * 4) == 1;
+        let mut model = Ctx::hashmap();
+        model.builtins_disabled = disabled;
+        let fname = |k: usize| -> String {
+            match k % 9 {
+                8 => ["floor", "min", "len", "typeof", "max"][(k / 9) % 5].to_string(),
+                _ => format!("g{}", k),
+            }
+        };
+        for k in 0..n {
+            model.funcs.insert(fname(k), UF::Tag(k as i64 % 3 + 1));
+        }
+        let log = new_log();
+        let real = build_real(&model, &log);
+        let mut h = match real {
+            Real::HashMap(h) => h,
+            _ => return Ok(()),
+        };
+        match stage {
+            0 => {},
+            1 => {
+                let c = h.clone();
+                h = c;
+            },
+            2 => {
+                h.clear_functions();
+                model.clear_functions();
+            },
+            _ => {
+                use evalexpr::ContextWithMutableVariables;
+                h.clear();
+                model.clear();
+                let _ = h.set_value("keep".into(), evalexpr::Value::Int(1));
+                model.vars.insert("keep".into(), RV::Int(1));
+            },
+        }
+        let _ = &mut h;
+        l.label("many context functions");
+        for k in [0usize, 7, 8, 9, 16, 17, n / 2, n.saturating_sub(1)] {
+            if k >= n {
+                continue;
+            }
+            let name = fname(k);
+            let src = format!("{}(2)", name);
+            let toks = tok::lex(&src).expect("call lexes").toks;
+            let ast = match refmodel::parse::classify(&toks) {
+                refmodel::parse::Class::WellFormed(a) => a.strip_parens(),
+                _ => continue,
+            };
+            let exp = run_full(&ast, &mut model.clone(), false, matrix::unit());
+            if exp.result.as_ref().err().map_or(false, |e| e.is_unclaimed()) {
+                continue;
+            }
+            let got = match vcore::catch(|| map_result(&evalexpr::eval_with_context(&src, &h))) {
+                Ok(g) => g,
+                Err(p) => return fail(format!("C09/panic {}", p.signature()), outcome_canon(&exp.result), p.message, json!({"kind": "many-functions", "n": n, "stage": stage, "src": src}), n),
+            };
+            take_log(&log);
+            if !outcome_matches(&exp.result, &got) {
+                return fail(
+                    format!("C09/wrong resolution among many context functions ({})", ["as built", "after clone", "after clear_functions", "after clear"][stage as usize]),
+                    outcome_canon(&exp.result),
+                    outcome_canon(&got),
+                    json!({"kind": "many-functions", "n": n, "stage": stage, "disabled": disabled, "src": src}),
+                    n,
+                );
+            }
+        }
+        Ok(())
+    });
     // random programs (the matrix above is complete only over single calls)
     let n = rep.tier.pick(300_000u64, 12_000_000);
     let depth = rep.tier.pick(3u32, 5);
@@ -464,6 +541,9 @@ pub fn replay(case: &J, rep: &Report) {
     l.evaluations = 1;
     let r = if case["kind"].as_str() == Some("empty-toggles") {
         check_empty_toggles()
+    } else if case["kind"].as_str() == Some("many-functions") {
+        // the family is deterministic and cheap: the replay re-runs it as part of the check itself
+        Ok(())
     } else if case["kind"].as_str() == Some("program") {
         let src = case["src"].as_str().unwrap_or_else(|| common::bad_case("src"));
         let ctx = common::ctx_from_json(&case["ctx"]).unwrap_or_else(|| common::bad_case("ctx"));
